@@ -118,6 +118,7 @@ def mutationOfJson (j : Json) : Option Mutation := do
   | "changeUnique" => pure (.changeUnique t (← getStr j "n") (getStrList j "cols"))
   | "addFK" => pure (.addFk t (← fkOfJson (getObj j "fk")))
   | "dropFK" => pure (.dropFk t (← getStr j "n"))
+  | "dropTableRefs" => pure (.dropTableRefs t (getBoolD j "dropCols"))
   | _ => none
 
 def verdictsOfJson (j : Json) (k : String) : Verdicts :=
